@@ -92,6 +92,11 @@ CASES = [
     ('paren-from-argument-macro', '#define F(x) [x]\n#define LP (\n#define RP )\n#define C ,\nF(LP) F(RP) F(C) F(LP C RP)'),
     ('comma-macro-in-nested-call', '#define G(x, y) <x|y>\n#define F(x) G(x, 0)\n#define C 1, 2\n#define H(x) G(x)\nF((C)) H(C) F(H(C))'),
     ('stringify-of-expanding-arg', '#define S(x) #x x\n#define PAIR 1, 2\n#define OPEN S(\nOPEN PAIR ) S(PAIR)'),
+    ('stringify-indirect', '#define XS(x) S(x)\n#define S(x) #x\n#define N 4\nchar *a = S(N), *b = XS(N), *c = XS(N + N);'),
+    ('va-args-stringify-empty', '#define W(...) #__VA_ARGS__\n#define V(...) [__VA_ARGS__]\nchar *s = W(); V() V(,) V((,))'),
+    ('parens-inside-literals', '#define F(x, y) x + y\nint v = F("(", \')\') ; char *w = F("a,b", \',\');'),
+    ('macro-named-like-its-parameter', '#define x(x) x + 1\nint v = x(x(3));'),
+    ('kind-change-after-undef', '#define F(x) x\n#undef F\n#define F 7\nint v = F(1);\n#undef F\n#define F(a, b) b\nint w = F(1, 2);'),
     ('twelve-macros', '\n'.join('#define M%d(a) M%d(a + %d)' % (k, k + 1, k) for k in range(11)) + '\n#define M11(a) [a]\nint v = M0(0);'),
 ]
 REJECT = [
